@@ -68,6 +68,8 @@ def r1(prog, rep):
     loops = [s for s in f.node.body if isinstance(s, ast.For)]
     nst = 0
     for loop in loops:
+        if not isinstance(loop.target, ast.Name):
+            continue  # not a loop over contour indices (e.g. a loop over location names): the statement floor below decides
         lv = loop.target.id
         rng = T(mod, loop.iter).replace(" ", "")
         arrays = {}  # local distance array -> (who, contour (a,b))
@@ -281,18 +283,25 @@ def reverse_rules(mod, rep):
     env = {}
     texts = {}
     try:
-        for e in effects(f.node, inline=False):
-            if e.kind != "store":
-                continue
-            t = mod.code(e.target)
-            texts[t] = mod.code(e.value)
-            if t in ("self.distance", "self.positions"):
-                continue
-            v = ex.expr(e.value, env)
-            if isinstance(e.target, ast.Name):
-                env[t] = v
-            else:
-                state[t] = v
+        effs = [e for e in effects(f.node, inline=False) if e.kind == "store"]
+        k = 0
+        while k < len(effs):
+            # the stores of one statement (`a, b = x, y`) happen at once: all right-hand sides are
+            # evaluated in the state before any of them is stored
+            group = [e for e in effs[k:] if e.node is effs[k].node]
+            k += len(group)
+            pending = []
+            for e in group:
+                t = mod.code(e.target)
+                texts[t] = mod.code(e.value)
+                if t in ("self.distance", "self.positions"):
+                    continue
+                pending.append((e, t, ex.expr(e.value, env)))
+            for e, t, v in pending:
+                if isinstance(e.target, ast.Name):
+                    env[t] = v
+                else:
+                    state[t] = v
         ok = (state["self.startInd"] - (n - 1 - E)).is_zero() and (state["self.endInd"] - (n - 1 - S)).is_zero()
         detail = "startInd -> %s, endInd -> %s" % (state["self.startInd"].show(), state["self.endInd"].show())
     except AlgError as e:
